@@ -602,6 +602,7 @@ func addTransceiverSDP(
 					Address: "0.0.0.0",
 				},
 			},
+			Attributes: []sdp.Attribute{{Key: sdp.AttrKeyMID, Value: midValue}},
 		})
 
 		return false, nil
